@@ -30,7 +30,9 @@ RULE = ('Part 1, complete grid: scripts of one session shape {read-only, optimis
         'without error and without waiting for a provider lock (the instrumented lock raises instead of waiting, so a hang is '
         'never judged by time). Non-trivial = the first fault was injected while provider.transaction_lock was held; distinct '
         'by hash of (script/actors, schedule, plan).')
-ASSUMPTIONS = ['SQLite file database opened with timeout=0, so file-lock conflicts surface as errors instead of waits',
+ASSUMPTIONS = ['SQLite file database opened with timeout=0 (file-lock conflicts surface as errors instead of waits) and PRAGMA '
+               'synchronous=OFF; an execute that is failed after it was performed is run to completion first (a real driver does '
+               'not leave a failed statement active)',
                'the two threading.Lock objects of the SQLiteProvider instance are replaced by instrumented locks with the same '
                'acquire/release protocol (holder tracking; an unavailable lock hands control to another actor or raises)',
                'a connection whose close() the plan refused is exempt from the leak rule and closed by the harness before the '
@@ -123,7 +125,7 @@ def run(ctx):
             judge(ctx, {'script': script, 'plan': []}, msg)
             if info.get('natural_errors'):
                 raise RuntimeError('fault-free script %r fails on its own: %r' % (script, info['natural_errors']))
-            logs[key] = info['calls']
+            logs[key] = info.get('calls', [])
         calls = logs[key]
         for k, call in enumerate(calls):
             ctx.check_time()
